@@ -49,10 +49,18 @@ def main(argv=None):
                 return 1
             print("REPLAY: finding %s is no longer reported" % want)
             return 0
+        selftest_failed = False
+        if a.tier == "thorough" and not ctx.errors and not a.root:
+            known = {k["key"] for k in report.load_known() if k.get("status") == "known"}
+            if all(f.key in known for f in ctx.findings):      # self-validation only matters when the base verdict is "held"
+                from .selftest import harness
+                ok, stats, msgs = harness.run(pid, ctx)
+                ctx.counters["selftest"] = stats
+                ctx.notes.append("self-validation: %d variants analysed statically (%d breaking reported, %d preserving unchanged, %d skipped)"
+                                 % (stats["variants"], stats["breaking_ok"], stats["preserving_ok"], stats["skipped"]))
+                for m in msgs:
+                    ctx.unrecognised(m)
         rc = report.finish(ctx, mod.EXPLANATION, mod.RULE)
-        if rc == 0 and a.tier == "thorough" and hasattr(mod, "selftest"):
-            from .selftest import harness
-            rc = harness.run(pid, mod, ctx)
         return rc
     except AnalysisError as e:
         print("ANALYSIS-ERROR property=%s %s" % (pid, e))
